@@ -1,5 +1,6 @@
 """Shared plumbing of the checks: context, violations, known findings, evidence, exit codes."""
 import fnmatch
+import re
 import hashlib
 import json
 import os
@@ -99,7 +100,7 @@ class Ctx(object):
             if f.get('status') != 'open' or f.get('property') != self.pid:
                 continue
             for pat in f.get('signatures', []):
-                if signature == pat or fnmatch.fnmatchcase(signature, pat):
+                if signature == pat or re.fullmatch('.*'.join(re.escape(x) for x in pat.split('*')), signature):
                     return f
         return None
 
